@@ -554,6 +554,18 @@ def run(ctx):
     zero_cases(ctx, rng, batch)
     compare_batch(ctx, batch)
     ctx.assumption('A-yaml', True, '%d generated documents parsed to the generated trees' % ctx.stats['files_written'])
+    reach_floor(ctx, ['form_H_bare', 'form_H_explicit', 'form_H_nd', 'form_S_bare', 'form_S_explicit', 'form_S_nd',
+                      'form_Tref_bare', 'form_Tref_default', 'form_Tref_explicit', 'fault_missing_unit', 'fault_wrong_dim_explicit',
+                      'fault_wrong_dim_default', 'fault_bad_string', 'inconsistent_data', 'model_err_inputData',
+                      'model_err_unitsParse', 'model_ok', 'relational_pairs', 'wrong_dim_loaded_nonplain', 'zero_cases'])
+
+
+def reach_floor(ctx, names):
+    """generator rot is a machinery failure: every construct the check was built to reach must still be reached"""
+    missing = [n for n in names if ctx.stats.get(n, 0) == 0]
+    ctx.extra.setdefault('coverage', {})['reach'] = dict((n, ctx.stats.get(n, 0)) for n in names)
+    if missing and not ctx.searching and ctx.time_left() > 100:
+        raise common.MachineryError('generator no longer reaches: %s' % ', '.join(missing))
 
 
 def zero_cases(ctx, rng, batch):
